@@ -310,3 +310,205 @@ def run_parse(s):
     except Exception as e:
         line["perr"] = type(e).__name__
     return line
+
+
+# ====================================================================== test client jar as a state machine (ClientJar.tla)
+# A history = list of steps {"op": .., "a": {unified argument record}}; times are ticks (1 h) of a model clock that starts at
+# tick 1 = JAR_BASE + 1 h; -1 = absent, -2 = the Unix epoch.
+ABSENT, EPOCH = -1, -2
+JAR_A = {"host": [], "rp": [], "rp2": [], "https": False, "has_sc": False, "name": [], "val": [], "domattr": [], "pathattr": [],
+         "ma": ABSENT, "exp": ABSENT, "secure": False, "httponly": False, "ss": [], "dom": [], "path": [], "oo": True}
+NO_GOT = {"dom": [], "path": [], "name": [], "val": [], "ho": False, "secure": False, "httponly": False, "ss": [], "ma": ABSENT, "exp": ABSENT}
+
+
+def jar_a(**kw):
+    a = dict(JAR_A)
+    a.update(kw)
+    return a
+
+
+def _jar_base():
+    return datetime(2030, 1, 1, tzinfo=timezone.utc)
+
+
+def _cookie_rec(ck):
+    exp = ABSENT
+    if ck.expires is not None:
+        if ck.expires.timestamp() == 0:
+            exp = EPOCH
+        else:
+            d = (ck.expires - _jar_base()).total_seconds()
+            exp = int(d // 3600) if d % 3600 == 0 and abs(d) < 10**9 else -3
+    return {"dom": cps(ck.domain), "path": cps(ck.path), "name": cps(ck.decoded_key), "val": cps(ck.decoded_value), "ho": bool(ck.origin_only),
+            "secure": bool(ck.secure), "httponly": bool(ck.http_only), "ss": cps(ck.same_site or ""),
+            "ma": ABSENT if ck.max_age is None else max(min(ck.max_age, 10**9), -10**9), "exp": exp}
+
+
+def _sc_kwargs(a):
+    kw = {"secure": a["secure"], "httponly": a["httponly"]}
+    if a["ma"] != ABSENT:
+        kw["max_age"] = a["ma"] * 3600
+    if a["exp"] == EPOCH:
+        kw["expires"] = 0
+    elif a["exp"] != ABSENT:
+        kw["expires"] = _jar_base() + timedelta(hours=a["exp"])
+    if a["ss"]:
+        kw["samesite"] = text(a["ss"])
+    return kw
+
+
+def _path_prefixes(p):
+    out = {"/", p}
+    for i, c in enumerate(p):
+        if c == "/" and i > 0:
+            out.add(p[:i])
+            out.add(p[: i + 1])
+    return out
+
+
+def run_jar_history(steps):
+    """Execute a history on one werkzeug.test.Client with an echo app and a patched clock; one recorded line per step."""
+    import warnings
+
+    import werkzeug.http as whttp
+    from werkzeug.test import Client
+    from werkzeug.utils import redirect
+    from werkzeug.wrappers import Request, Response
+
+    state = {"now": 1, "plan": None, "seen": []}
+    real_dt = whttp.datetime
+
+    class _Meta(type):  # isinstance(x, datetime) inside werkzeug.http must keep accepting ordinary datetimes
+        def __instancecheck__(cls, inst):
+            return isinstance(inst, real_dt)
+
+    class ModelClock(real_dt, metaclass=_Meta):  # dump_cookie derives Expires from datetime.now() when only max_age is given
+        @classmethod
+        def now(cls, tz=None):
+            return _jar_base() + timedelta(hours=state["now"])
+
+    def app(environ, start_response):
+        req = Request(environ)
+        state["seen"].append(_pairs(req.cookies))
+        plan, state["plan"] = state["plan"], None
+        resp = redirect(text(plan["rp2"])) if plan and plan.get("redirect") else Response("ok")
+        resp.max_cookie_size = 0
+        if plan and plan.get("sc"):
+            a = plan["sc"]
+            resp.set_cookie(text(a["name"]), text(a["val"]), domain=text(a["domattr"]) or None, path=text(a["pathattr"]) or None, **_sc_kwargs(a))
+        return resp(environ, start_response)
+
+    doms, paths, names = set(), {"/"}, set()
+    for s in steps:
+        a = s["a"]
+        doms.update(x for x in (text(a["host"]), text(a["domattr"]), text(a["dom"])) if x)
+        for p in (text(a["rp"]), text(a["rp2"]), text(a["pathattr"]), text(a["path"])):
+            if p:
+                paths |= _path_prefixes(p)
+        if a["name"]:
+            names.add(text(a["name"]))
+    lines = [{"op": "init", "a": dict(JAR_A), "sent": [], "sent2": [], "found": False, "got": dict(NO_GOT), "proj": [], "exc": ""}]
+    whttp.datetime = ModelClock
+    try:
+        with warnings.catch_warnings():
+            warnings.simplefilter("ignore")
+            client = Client(app)
+            for s in steps:
+                op, a = s["op"], s["a"]
+                ln = {"op": op, "a": a, "sent": [], "sent2": [], "found": False, "got": dict(NO_GOT), "proj": [], "exc": ""}
+                try:
+                    if op in ("req", "redir"):
+                        state["seen"] = []
+                        state["plan"] = {"sc": a if a["has_sc"] else None, "redirect": op == "redir", "rp2": a["rp2"]}
+                        base = f"{'https' if a['https'] else 'http'}://{text(a['host'])}/"
+                        client.get(text(a["rp"]), base_url=base, follow_redirects=op == "redir").close()
+                        ln["sent"] = state["seen"][0]
+                        if op == "redir":
+                            ln["sent2"] = state["seen"][1]
+                    elif op == "cset":
+                        client.set_cookie(text(a["name"]), text(a["val"]), domain=text(a["dom"]), origin_only=a["oo"], path=text(a["path"]), **_sc_kwargs(a))
+                    elif op == "cdel":
+                        client.delete_cookie(text(a["name"]), domain=text(a["dom"]), path=text(a["path"]))
+                    elif op == "cget":
+                        ck = client.get_cookie(text(a["name"]), domain=text(a["dom"]), path=text(a["path"]))
+                        if ck is not None:
+                            ln["found"], ln["got"] = True, _cookie_rec(ck)
+                    elif op == "tick":
+                        state["now"] += 1
+                    for d in sorted(doms):
+                        for p in sorted(paths):
+                            for n in sorted(names):
+                                ck = client.get_cookie(n, domain=d, path=p)
+                                if ck is not None:
+                                    ln["proj"].append(_cookie_rec(ck))
+                except Exception as e:
+                    ln["exc"] = type(e).__name__
+                lines.append(ln)
+    finally:
+        whttp.datetime = real_dt
+    return lines
+
+
+def jar_step_from_model(act):
+    """a transition label exported by MCClientJar -> harness step"""
+    op = act["op"]
+    if op in ("req", "redir"):
+        sc = act["sc"]
+        return {"op": op, "a": jar_a(host=act["host"], rp=act["rp"], rp2=act.get("rp2", []), has_sc=act.get("has_sc", True), name=sc["name"], val=sc["val"],
+                                     domattr=sc["domattr"], pathattr=sc["pathattr"], ma=sc["ma"], exp=sc["exp"], secure=sc["secure"],
+                                     httponly=sc["httponly"], ss=sc["ss"])}
+    if op == "cset":
+        a = act["a"]
+        return {"op": op, "a": jar_a(name=a["name"], val=a["val"], dom=a["dom"], path=a["path"], oo=a["oo"], ma=a["ma"], exp=a["exp"],
+                                     secure=a["secure"], httponly=a["httponly"], ss=a["ss"])}
+    if op == "cdel":
+        return {"op": op, "a": jar_a(name=act["name"], dom=act["dom"], path=act["path"])}
+    return {"op": "tick", "a": jar_a()}
+
+
+JAR_HOSTS = ["a.test", "sub.a.test", "deep.sub.a.test", "ba.test", "b.test", "localhost"]
+JAR_PATHS = ["/", "/app", "/app/", "/app/x", "/app/x/y", "/apple", "/a"]
+JAR_NAMES = ["n", "m", "Path"]
+JAR_VALUES = ["1", "2", "3", "a;b", 'é "q"', " sp ", "", "x=y", "\x1a\\", "; Secure", "😀,"]
+JAR_LIVES = [(ABSENT, ABSENT), (ABSENT, ABSENT), (0, ABSENT), (ABSENT, EPOCH), (0, EPOCH), (1, ABSENT), (2, ABSENT), (3, 0), (ABSENT, 0), (ABSENT, 2),
+             (ABSENT, 6), (-1, ABSENT), (2, 9)]
+
+
+def rand_jar_history(seed):
+    rng = random.Random(seed)
+    hosts = rng.sample(JAR_HOSTS, rng.choice([1, 2, 3]))
+    if rng.random() < 0.6 and "a.test" not in hosts:
+        hosts.append("a.test")
+    steps = []
+    known = []  # (name, domain, path) of cookies probably stored: delete / get mostly aim at these
+
+    def life_flags():
+        ma, exp = rng.choice(JAR_LIVES)
+        return dict(ma=ma, exp=exp, secure=rng.random() < 0.2, httponly=rng.random() < 0.3, ss=cps(rng.choice(["", "", "Strict", "Lax", "None"])))
+
+    for _ in range(rng.choice([2, 4, 6, 9, 12])):
+        r = rng.random()
+        host = rng.choice(hosts)
+        if r < 0.55:
+            a = jar_a(host=cps(host), rp=cps(rng.choice(JAR_PATHS)), https=rng.random() < 0.3)
+            op = "req"
+            if r < 0.10:
+                op, a["rp2"] = "redir", cps(rng.choice(JAR_PATHS))
+            if op == "redir" or rng.random() < 0.6:
+                parents = [host] + [host[i + 1:] for i, c in enumerate(host) if c == "." and "." in host[i + 1:]]
+                a.update(has_sc=True, name=cps(rng.choice(JAR_NAMES)), val=cps(rng.choice(JAR_VALUES)),
+                         domattr=cps(rng.choice(parents)) if rng.random() < 0.5 else [], pathattr=cps(rng.choice(JAR_PATHS)) if rng.random() < 0.5 else [],
+                         **life_flags())
+            steps.append({"op": op, "a": a})
+            if a["has_sc"] and a["pathattr"]:
+                known.append((a["name"], a["domattr"] or a["host"], a["pathattr"]))
+        elif r < 0.67:
+            steps.append({"op": "cset", "a": jar_a(name=cps(rng.choice(JAR_NAMES)), val=cps(rng.choice(JAR_VALUES)), dom=cps(host),
+                                                   path=cps(rng.choice(JAR_PATHS)), oo=rng.random() < 0.6, **life_flags())})
+            known.append((steps[-1]["a"]["name"], steps[-1]["a"]["dom"], steps[-1]["a"]["path"]))
+        elif r < 0.85:
+            n, d, p = rng.choice(known) if known and rng.random() < 0.7 else (cps(rng.choice(JAR_NAMES)), cps(host), cps(rng.choice(JAR_PATHS)))
+            steps.append({"op": "cdel" if r < 0.75 else "cget", "a": jar_a(name=n, dom=d, path=p)})
+        else:
+            steps.append({"op": "tick", "a": jar_a()})
+    return steps
